@@ -173,7 +173,7 @@ pub mod fs {
         { unimplemented!() }
         /// fstat(2)
         #[verifier::external_body]
-        pub fn metadata(&self) -> (r: io::Result<Metadata>) { unimplemented!() }
+        pub fn metadata(&self, Tracked(w): Tracked<&World>) -> (r: io::Result<Metadata>) { unimplemented!() }
         #[verifier::external_body]
         pub fn sync_all(&self) -> (r: io::Result<()>) { unimplemented!() }
     }
